@@ -69,6 +69,84 @@ def registry_snapshot():
     return hashlib.sha256(repr(parts).encode()).hexdigest()
 
 
+FRESH_SCRIPT = r"""
+import sys, json
+sys.path.insert(0, sys.argv[1])
+exec(sys.argv[2])
+from dali import command
+from dali.frame import ForwardFrame
+from dali.device.helpers import DeviceInstanceTypeMapper
+
+
+def canon(thunk):
+    try:
+        c = thunk()
+        return "%s.%s|%d %d|%s" % (type(c).__module__, type(c).__qualname__, len(c.frame), c.frame.as_integer, str(c))
+    except Exception as e:
+        return "RAISED " + type(e).__name__
+
+
+probes = []
+for inst in (0x00, 0x1F, 0x80, 0x9F, 0xC0, 0xC1, 0xC3, 0xC4, 0xDF, 0xFE, 0xFF):
+    for op in range(256):
+        probes.append((24, (0x01 << 16) | (inst << 8) | op, 0))
+for hi in (0x01, 0xFF, 0xA3, 0xC1):
+    for op in range(0, 256, 3):
+        for dt in (0, 1, 6, 8):
+            probes.append((16, (hi << 8) | op, dt))
+events = []
+for t in (1, 3, 4, 2, 6, 0, 31):
+    for sa, inum, info in ((5, 3, 2), (0, 0, 0x3FF), (63, 31, 7)):
+        events.append(((sa << 17) | (1 << 15) | (inum << 10) | info, {(sa, inum): t}))
+    events.append(((1 << 23) | (t << 17) | 5, None))              # instance-type scheme
+    events.append((0xC00000 | (t << 17) | (1 << 15) | (2 << 10) | 9, None))
+dec = lambda p: canon(lambda: command.from_frame(ForwardFrame(p[0], p[1]), devicetype=p[2]))
+r1 = [dec(p) for p in probes]
+ev = [canon(lambda: command.from_frame(ForwardFrame(24, d), dev_inst_map=None if m is None else DeviceInstanceTypeMapper(dict(m))))
+      for d, m in events]
+r2 = [dec(p) for p in probes]
+ev2 = [canon(lambda: command.from_frame(ForwardFrame(24, d), dev_inst_map=None if m is None else DeviceInstanceTypeMapper(dict(m))))
+       for d, m in events]
+print(json.dumps({"probes": probes, "r1": r1, "r2": r2, "ev": ev, "ev2": ev2, "events": [e[0] for e in events]}))
+"""
+
+
+def fresh_process_purity(ctx, corr):
+    """'The result does not depend on what was decoded before' in a process that has imported the library the way an
+    application does (NOT everything up front, as this harness does for the big sweeps): 3600 probe frames are decoded,
+    then events of every instance type under maps, then the probes again - the two passes must agree, and so must
+    two passes over the events.  Run in fresh interpreters, one per way of importing the library.
+    (Strengthening after seeded round 7: modules loaded lazily by the decoder register more classes.)"""
+    import json
+    import subprocess
+    import common
+    repo = str(common.REPO)
+    for imp in ("import dali.device, dali.gear", "import dali.gear.general, dali.device.general",
+                "from dali import device, gear", "import dali.device.general"):
+        p = subprocess.run(["/venv/bin/python", "-c", FRESH_SCRIPT, repo, imp], capture_output=True, text=True,
+                           timeout=300)
+        if p.returncode != 0:
+            corr.violate("decode:order", {"imports": imp, "fresh process": True}, "decodes", p.stderr[-400:],
+                         "decoding in a fresh process failed")
+            continue
+        d = json.loads(p.stdout)
+        bad = [(pr, a, b) for pr, a, b in zip(d["probes"], d["r1"], d["r2"]) if a != b]
+        bad_ev = [(e, a, b) for e, a, b in zip(d["events"], d["ev"], d["ev2"]) if a != b]
+        for pr, a, b in bad[:3]:
+            corr.violate("decode:order", {"frame": pr, "fresh process, imports": imp,
+                                          "between the two decodes": "event frames of instance types 0..4, 6, 31 "
+                                          "were decoded"}, a, b,
+                         "the result of decoding depends on what was decoded before")
+        for e, a, b in bad_ev[:2]:
+            corr.violate("decode:order", {"event frame": e, "fresh process, imports": imp}, a, b,
+                         "the result of decoding depends on what was decoded before")
+        for x in d["r1"] + d["ev"]:
+            if x.startswith("RAISED"):
+                corr.violate("decode:raises", {"fresh process, imports": imp}, "a command object", x)
+                break
+        corr.count("purity_fresh_process", 2 * len(d["probes"]) + 2 * len(d["events"]))
+
+
 def make_jobs(ctx):
     rng = ctx.rng
     jobs = []
@@ -235,6 +313,7 @@ def correspond(ctx, corr):
                                           "instances before and taught in between", "map now": cc.map_tok(known)},
                          mwant, got, "decoding depends on what the mapper was asked before")
     corr.count("purity_one_mapper", len(mlines))
+    fresh_process_purity(ctx, corr)
     snap1 = registry_snapshot()
     if snap0 != snap1:
         # some class-level container of the decoding classes changed while decoding.  That is a violation only if
